@@ -44,7 +44,7 @@ def run(tier):
             jobs.append(dict(base, harness="VerifC01Coverage", params={"sys": sys, "n": n}, max_witnesses=2, witness_every=100))
     EXT = {3: ("Maven", 20), 6: ("PyPI", 24), 7: ("RubyGems", 17)}
     QUICK_T = {3: [2, 5, 8], 6: [1, 5, 10, 13, 19], 7: [1, 5, 6, 9]}
-    QUICK_T2 = {3: [1, 4, 7]}
+    QUICK_T2 = {3: [1, 4, 7], 6: [17, 20, 18], 7: [5, 16, 1]}
     for sys, (_, nt) in EXT.items():
         ts = QUICK_T[sys] if tier == "quick" else list(range(nt))
         triples = list(itertools.product(ts, repeat=3))
